@@ -4,7 +4,7 @@ CONSTANTS
   MaxAmt = 2
   FIX = {"refund", "passfee", "fullmint"}
   Start = 4
-  E0 = 2
+  E0 = 3
   MaxSupply = 8
 INIT Init
 NEXT Next
